@@ -9,7 +9,8 @@
 
 /* C08 cost meter gating: library work is metered only between entry to and return from a driver API call, and never
  * while a harness callback or monitor runs (they call instrumented library accessors themselves) */
-extern int hx_cost_on, hx_cost_armed;
+extern __thread int hx_cost_on;
+extern int hx_cost_armed;
 static inline void cost_resume(int *saved) { hx_cost_on = *saved; }
 #define COST_PAUSE int cost_saved __attribute__((cleanup(cost_resume))) = hx_cost_on; hx_cost_on = 0
 #define COST_API(stmt) do { hx_cost_on = hx_cost_armed; stmt; hx_cost_on = 0; } while (0)
@@ -761,6 +762,19 @@ static htp_cfg_t *build_cfg(runctx *x) {
     return cfg;
 }
 
+/* C19: a configuration shared by several concurrently driven connections, and the scheduling point of hx_conc.c */
+__thread htp_cfg_t *hx_shared_cfg = NULL;
+void (*hx_yield_hook)(void) = NULL;
+void (*hx_after_hook)(void) = NULL;
+#define YIELD() do { if (hx_yield_hook) hx_yield_hook(); } while (0)
+
+htp_cfg_t *hx_build_cfg_for(const hx_case *c) {
+    runctx X;
+    memset(&X, 0, sizeof X);
+    X.c = c;
+    return build_cfg(&X);
+}
+
 /* ------------------------------------------------------------------ monitors at call boundaries */
 
 static void boundary_checks(runctx *x) {
@@ -849,7 +863,9 @@ static int feed(runctx *x, int d) {
         hx_cost_buffered += p->in_buf_size + p->out_buf_size + (p->in_header ? bstr_len(p->in_header) : 0) + (p->out_header ? bstr_len(p->out_header) : 0);
     }
     int rc;
+    YIELD();
     COST_API(rc = d == 0 ? htp_connp_req_data(p, &tv, data, len) : htp_connp_res_data(p, &tv, data, len));
+    if (hx_after_hook) hx_after_hook();
     size_t consumed = d == 0 ? htp_connp_req_data_consumed(p) : htp_connp_res_data_consumed(p);
     x->cur_dir = 0;
     x->cur_sticky = 0;
@@ -977,12 +993,18 @@ int hx_run(const hx_case *c, hx_result *r) {
     hxa_counting = 1;
     hxa_vclock = 1000000;
 
+    if (hx_shared_cfg != NULL) {
+        x->cfg = hx_shared_cfg;
+    } else {
     x->cfg_base = build_cfg(x);
     if (x->cfg_base == NULL) goto done;
-    if (c->cfg[CF_CFG_COPY]) {
+    }
+    if (hx_shared_cfg != NULL) {
+    } else if (c->cfg[CF_CFG_COPY]) {
         x->cfg = htp_config_copy(x->cfg_base);
         if (x->cfg == NULL) goto done;
     } else x->cfg = x->cfg_base;
+    YIELD();
     COST_API(x->connp = htp_connp_create(x->cfg));
     if (x->connp == NULL) goto done;
     htp_connp_set_user_data(x->connp, x);
@@ -1001,6 +1023,7 @@ int hx_run(const hx_case *c, hx_result *r) {
             case OP_REQ_CLOSE: {
                 struct timeval tv = { 2, 0 };
                 x->cur_dir = 3;
+                YIELD();
                 COST_API(htp_connp_req_close(x->connp, &tv));
                 x->cur_dir = 0;
                 boundary_checks(x);
@@ -1013,6 +1036,7 @@ int hx_run(const hx_case *c, hx_result *r) {
             case OP_CLOSE: {
                 struct timeval tv = { 3, 0 };
                 x->cur_dir = 3;
+                YIELD();
                 COST_API(htp_connp_close(x->connp, &tv));
                 x->cur_dir = 0;
                 x->closed = 1;
@@ -1093,8 +1117,8 @@ int hx_run(const hx_case *c, hx_result *r) {
     }
 
 done:
-    if (x->connp) COST_API(htp_connp_destroy_all(x->connp));
-    if (x->cfg && x->cfg != x->cfg_base) htp_config_destroy(x->cfg);
+    if (x->connp) { YIELD(); COST_API(htp_connp_destroy_all(x->connp)); }
+    if (x->cfg && x->cfg != x->cfg_base && x->cfg != hx_shared_cfg) htp_config_destroy(x->cfg);
     if (x->cfg_base) htp_config_destroy(x->cfg_base);
     hxa_counting = 0;
     r->live_blocks_after = hxa_live_blocks - base_blocks;
